@@ -1,5 +1,6 @@
 import TsVerif.C20.Judge
 import TsVerif.C20.Roundtrip
+import TsVerif.C20.FormatNormalize
 /-!
 # C20 — property theorems
 
@@ -17,14 +18,17 @@ Clause map (model = `TsVerif/C20/Model.lean`, tied to crates/cli/src/test.rs by 
 * "reading a file and writing it back never merges, splits or drops tests, whatever delimiter lengths
   and suffixes" → `parse_write_roundtrip_partial` (all lists of `Simple` corrections, all delimiter
   lengths ≥ 3, all admissible suffixes); the full statement is FALSE (witnesses
-  `roundtrip_fails_delimiter_in_input`, `roundtrip_fails_untrimmed_name`) and OPEN for attribute text /
-  multi-line names; `update_preserves_simple` composes both results without a round-trip hypothesis.
+  `roundtrip_fails_delimiter_in_input`, `roundtrip_fails_untrimmed_name`) and OPEN for multi-line names; `update_preserves_simple` composes both results without a round-trip hypothesis.
 * "reading never loses bytes"                       → `splitIncl_flatten` (Roundtrip.lean).
-* "a second update leaves the file byte-identical"  → OPEN (`update_idempotent`), judged on every real file;
-  depends on `format_normalize` (OPEN, judged on every S-expression the runtime printed for an
-  error-free tree) — FALSE for trees with two quoted tokens (finding C20-format-sexp-quote-state,
-  witness `format_sexp_quote_state`).
-* "every updated test whose parse is error-free passes afterwards" → judged only (needs `format_normalize`).
+* "a rewritten expectation reads back as itself" → `format_normalize_spec` (all balanced token
+  sequences = what the runtime prints for error-free trees; class membership measured on every run),
+  halves `format_tokens_spec` / `normalize_pretty` / `normalize_charwise`; FALSE with quoted tokens for
+  the unchanged code (finding C20-format-sexp-quote-state, witness `format_sexp_quote_state`).
+* "every updated test whose parse is error-free passes afterwards" → `update_passes_partial` (file level:
+  run-once tests, `Simple` corrections without `:cst`; via `roundtrip_built`, `normalize_section`,
+  `updateEntries_all2`, `updateLang_output_pass`); the full statement inherits the falsity of `update_preserves`.
+* "a second update leaves the file byte-identical" → OPEN as a theorem (`update_idempotent`: needs the
+  attribute flags after the round trip); decided by the judge on every real file.
 -/
 namespace TsVerif.C20
 
@@ -208,11 +212,12 @@ theorem parse_write_roundtrip (os : Str) (f : Str) :
 -/
 
 /-- `parse_write_roundtrip_partial`: for EVERY list of `Simple` corrections (delimiter lengths ≥ 3; a
-one-line name that is not blank, not a marker and not `===…`; no attribute text; no line of the input
+one-line name that is not blank, not a marker and not `===…`; attribute text empty or lines starting
+with a recognised attribute, none `===…`, no trailing white space; no line of the input
 or of the expectation starting with `===`/`---`; input not ending in CR) and every admissible
 suffix, the reader applied to the written file returns exactly one entry per correction, in order,
 with the same name, attribute text, input and delimiter lengths: nothing merges, splits or is dropped.
-Missing w.r.t. the full statement: attribute text, multi-line names (OPEN), and delimiter-like
+Missing w.r.t. the full statement: multi-line names (OPEN), and delimiter-like
 lines inside inputs/expectations (FALSE there, witness below). -/
 theorem parse_write_roundtrip_partial (os suf : Str) (hse : SufOK '=' suf) (hsd : SufOK '-' suf)
     (cs : List Correction) (h : ∀ c ∈ cs, Simple c) :
@@ -245,10 +250,19 @@ def cSimple : Correction :=
 
 /-- Non-vacuity: a two-line input with punctuation is `Simple`; `|||` is an admissible suffix. -/
 example : Simple cSimple :=
-  { hlen := by decide, dlen := by decide, attrs := rfl, inputCr := by decide
+  { hlen := by decide, dlen := by decide, attrs := Or.inl rfl, inputCr := by decide
     name := { noNl := by decide, noDelim := by decide, nonblank := by decide, notMarker := by decide, trimmed := by decide }
     inputLines := by decide, outputLines := by decide }
 example : SufOK '=' ['|', '|', '|'] ∧ SufOK '-' ['|', '|', '|'] := by decide
+
+/-- Non-vacuity with attribute text: `:skip`, a blank line, `:language(x)`. -/
+def cAttrs : Correction :=
+  { cSimple with attrsStr := [':', 's', 'k', 'i', 'p', '\n', '\n', ':', 'l', 'a', 'n', 'g', 'u', 'a', 'g', 'e', '(', 'x', ')'] }
+example : Simple cAttrs :=
+  { hlen := by decide, dlen := by decide, inputCr := by decide
+    attrs := Or.inr ⟨⟨_, _, rfl, by decide⟩, by decide, by decide⟩
+    name := { noNl := by decide, noDelim := by decide, nonblank := by decide, notMarker := by decide, trimmed := by decide }
+    inputLines := by decide, outputLines := by decide }
 
 /-- Witness for the dropped hypothesis "no `---` line in the input": a longer dash line inside the input
 is taken as the divider when the file is read back, so the input changes. -/
@@ -259,13 +273,182 @@ theorem roundtrip_fails_delimiter_in_input :
 theorem roundtrip_fails_untrimmed_name :
     ¬ RoundTrips [] [] [{ cSimple with name := ['f', ' '] }] := by decide
 
+/-! ## updated error-free tests pass afterwards -/
+
+/-- The rendering a test is compared with (`render_test_output` for a non-`:cst` test). -/
+def actualOf (e : Entry) (a : Actual) : Str := if e.hasFields then a.sexpFields else a.sexpPlain
+
+/-- What the update records for a run-once entry, position by position. -/
+theorem updateEntries_all2 (fx : Fixes) (orc : Oracle) :
+    ∀ (es : List Entry) (acc cs : List Correction), (∀ e ∈ es, RunOnce e) →
+      updateEntries fx orc es acc = some cs →
+      ∃ new, cs = acc ++ new ∧
+        All2 (fun e c => ∃ l a, e.attrs.languages = [l] ∧ orc l e.input = some a ∧ c = (updateLang fx e a).1) es new
+  | [], acc, cs, _, h => by
+    simp only [updateEntries, Option.some.injEq] at h
+    exact ⟨[], by simp [h], All2.nil⟩
+  | e :: es, acc, cs, hp, h => by
+    obtain ⟨h1, h2, l, h3⟩ := hp e (by simp)
+    unfold updateEntries at h
+    have hsk : (e.attrs.expect == Expect.skip) = false := by cases hx : e.attrs.expect <;> simp_all
+    cases ho : orc l e.input with
+    | none => simp [updateEntry, hsk, h2, h3, updateLangs, ho] at h
+    | some a =>
+      by_cases hstop : (updateLang fx e a).2 = true
+      · simp [updateEntry, hsk, h2, h3, updateLangs, ho, hstop] at h
+      · have hu : updateEntry fx orc e = .cont [(updateLang fx e a).1] := by
+          cases hone : fx.oneCorrection <;> simp [updateEntry, hsk, h2, h3, updateLangs, ho, hstop, hone]
+        rw [hu] at h
+        simp only at h
+        obtain ⟨new, hnew, hall⟩ := updateEntries_all2 fx orc es _ cs (fun x hx => hp x (by simp [hx])) h
+        exact ⟨(updateLang fx e a).1 :: new, by simp [hnew], All2.cons ⟨l, a, h3, ho, rfl⟩ hall⟩
+
+/-- For a test that expects success, is not `:cst`, and whose rendering shows no error, the update
+writes the formatted actual rendering (whether or not the old expectation matched). -/
+theorem updateLang_output_pass (fx : Fixes) (e : Entry) (a : Actual) (h1 : e.attrs.expect = .pass)
+    (h2 : e.attrs.cst = false)
+    (h3 : containsSub strERROR (actualOf e a) = false) (h4 : containsSub strMISSING (actualOf e a) = false) :
+    (updateLang fx e a).1.output = formatSexp fx (actualOf e a) := by
+  have key : ∀ actual : Str, containsSub strERROR actual = false → containsSub strMISSING actual = false →
+      (if (actual == e.output) = true then (e.corr (formatSexp fx e.output), false)
+       else if (containsSub strERROR actual || containsSub strMISSING actual) = true then
+         (e.corr (formatSexp fx e.output), e.attrs.failFast)
+       else (e.corr (formatSexp fx actual), e.attrs.failFast)).1.output = formatSexp fx actual := by
+    intro actual h3 h4
+    by_cases heq : (actual == e.output) = true
+    · simp [heq, Entry.corr, eq_of_beq heq]
+    · simp [heq, h3, h4, Entry.corr]
+  unfold updateLang
+  simp only [h1, h2, Bool.false_eq_true, ↓reduceIte]
+  exact key _ h3 h4
+
+theorem inFormatClass_spec {s : Str} (h : inFormatClass s = true) :
+    ∃ n k ts, s = joinToks (.opn n k :: ts) ∧ Bal (.opn n k :: ts) 0 false := by
+  unfold inFormatClass at h
+  split at h
+  · next n k ts _ =>
+    simp only [Bool.and_eq_true, beq_iff_eq, decide_eq_true_eq] at h
+    exact ⟨n, k, ts, h.1.symm, h.2⟩
+  · simp at h
+
+theorem all2_comp {α β γ : Type} {R : α → γ → Prop} {S : β → γ → Prop} :
+    ∀ {as : List α} {cs : List γ} {bs : List β}, All2 R as cs → All2 S bs cs →
+      All2 (fun a b => ∃ c, R a c ∧ S b c) as bs
+  | _, _, _, .nil, .nil => .nil
+  | _, _, _, .cons r hr, .cons s hs => .cons ⟨_, r, s⟩ (all2_comp hr hs)
+
+/-- Entry `e1` (read back after the update) is entry `e` with a passing expectation. -/
+def PassesAfter (orc : Oracle) (e e1 : Entry) : Prop :=
+  e1.name = e.name ∧ e1.attrsStr = e.attrsStr ∧ e1.input = e.input ∧
+  (e.attrs.expect = .pass → e.attrs.cst = false → ∀ l a, e.attrs.languages = [l] → orc l e.input = some a →
+    inFormatClass (actualOf e a) = true →
+    containsSub strERROR (actualOf e a) = false → containsSub strMISSING (actualOf e a) = false →
+    e1.output = actualOf e a)
+
+/-- `update_passes_partial` (unchanged code): for every corpus file whose tests are all run exactly once,
+when the update writes the file and the corrections it writes are `Simple` without `:cst` line, the
+file reads back test by test with the same name, attribute text and input, and every test that
+expects success, whose rendering is an error-free balanced S-expression, now has that rendering as
+its expectation — it passes.
+Missing w.r.t. the full statement: skipped / other-platform / multi-language tests (defects), tests
+outside `Simple` (delimiter-like lines, multi-line names), `:cst` tests. -/
+theorem update_passes_partial (os : Str) (orc : Oracle) (f : Str) (cs : List Correction)
+    (hne : parseFile os f ≠ [])
+    (hp : ∀ e ∈ parseFile os f, RunOnce e)
+    (hrun : updateEntries {} orc (parseFile os f) [] = some cs)
+    (hs : ∀ c ∈ cs, Simple c ∧ ∀ l ∈ splitIncl (c.attrsStr ++ ['\n']), noCstLine l) :
+    All2 (PassesAfter orc) (parseFile os f) (parseFile os (updateFile {} os orc f)) := by
+  obtain ⟨new, hnew, hall⟩ := updateEntries_all2 {} orc _ [] cs hp hrun
+  simp only [List.nil_append] at hnew
+  subst hnew
+  have hbuilt := roundtrip_built os [] ⟨by simp, by simp⟩ ⟨by simp, by simp⟩ cs (fun c hc => (hs c hc).1)
+  have hfile : updateFile {} os orc f = writeTests [] cs := by
+    unfold updateFile
+    split
+    · next h => exact absurd h hne
+    · simp [hrun]
+  rw [hfile]
+  -- strengthen `Built` with the no-`:cst` hypothesis of each correction
+  have hbuilt' : All2 (fun e1 c => Built e1 c ∧ (∀ l ∈ splitIncl (c.attrsStr ++ ['\n']), noCstLine l))
+      (parseFile os (writeTests [] cs)) cs := by
+    have : ∀ {es : List Entry} {cs' : List Correction}, All2 Built es cs' →
+        (∀ c ∈ cs', ∀ l ∈ splitIncl (c.attrsStr ++ ['\n']), noCstLine l) →
+        All2 (fun e1 c => Built e1 c ∧ (∀ l ∈ splitIncl (c.attrsStr ++ ['\n']), noCstLine l)) es cs' := by
+      intro es cs' hb
+      induction hb with
+      | nil => intro _; exact All2.nil
+      | cons hb _ ih => intro hc; exact All2.cons ⟨hb, hc _ (by simp)⟩ (ih (fun c hcm => hc c (by simp [hcm])))
+    exact this hbuilt (fun c hc => (hs c hc).2)
+  have hcomp := all2_comp hall hbuilt'
+  -- pointwise consequence
+  have hmono : ∀ {es e1s : List Entry},
+      All2 (fun e e1 => ∃ c, (∃ l a, e.attrs.languages = [l] ∧ orc l e.input = some a ∧ c = (updateLang {} e a).1) ∧
+        (Built e1 c ∧ (∀ l ∈ splitIncl (c.attrsStr ++ ['\n']), noCstLine l))) es e1s →
+      All2 (PassesAfter orc) es e1s := by
+    intro es e1s hh
+    induction hh with
+    | nil => exact All2.nil
+    | @cons e e1 _ _ hx _ ih =>
+      refine All2.cons ?_ ih
+      obtain ⟨c, ⟨l, a, hl, ho, hc⟩, ⟨hd, hout⟩, hnc⟩ := hx
+      have hkey := updateLang_skey {} e a
+      rw [← hc] at hkey
+      simp only [Entry.dkey, Correction.dkey, Prod.mk.injEq] at hd
+      simp only [Correction.skey, Entry.skey, Prod.mk.injEq] at hkey
+      refine ⟨hd.1.trans hkey.1, hd.2.1.trans hkey.2.1, hd.2.2.1.trans hkey.2.2, ?_⟩
+      intro h1 h2 l' a' hl' ho' hcls h3 h4
+      have hl2 : l' = l := by rw [hl] at hl'; simpa using hl'.symm
+      subst hl2
+      have ha : a' = a := by rw [ho] at ho'; simpa using ho'.symm
+      subst ha
+      obtain ⟨sepf, hsepf, hso⟩ := hout hnc
+      obtain ⟨n, k, ts, hj, hbal⟩ := inFormatClass_spec hcls
+      have hco : c.output = formatSexp {} (actualOf e a') := by
+        rw [hc]; exact updateLang_output_pass {} e a' h1 h2 h3 h4
+      rw [hso, outSection, hco, hj, format_tokens {} _ hbal]
+      have htrim : trim (prettyToks (.opn n k :: ts) 0 false) = prettyToks (.opn n k :: ts) 0 false := by
+        obtain ⟨x, hx⟩ := pretty_ends _ _ _ hbal
+        have hz : ∃ z, prettyToks (.opn n k :: ts) 0 false = '(' :: z := by
+          cases ts <;> exact ⟨_, by simp [prettyToks, openPre]; rfl⟩
+        obtain ⟨z, hz⟩ := hz
+        have : ∃ w, z = w ++ [')'] := by
+          rw [hz] at hx
+          cases x with
+          | nil => simp at hx
+          | cons a0 x' =>
+            simp only [List.cons_append, List.cons.injEq] at hx
+            exact ⟨x', hx.2⟩
+        obtain ⟨w, hw⟩ := this
+        rw [hz, hw]
+        exact trim_of_ends w '(' ')' (by decide) (by decide)
+      rw [htrim]
+      exact normalize_section n k ts hbal sepf hsepf
+  exact hmono hcomp
+
 /-! ## formatting and normalising expectations -/
 
+/-- `format_normalize` (proved in `FormatNormalize.lean`, restated here): for every one-line S-expression
+that is a sequence of `(name`+closers / `field:` tokens with balanced parentheses — the strings
+`ts_node_string` prints for error-free trees; the check measures on every run that all printed ones are
+in this class — `normalize_sexp_output (format_sexp s) = s`, with and without the quote-reset repair.
+So a rewritten expectation reads back as itself. -/
+theorem format_normalize_spec (fx : Fixes) (n : Str) (k : Nat) (ts : List Tok) (h : Bal (.opn n k :: ts) 0 false) :
+    normalizeSexp (trim (formatSexp fx (joinToks (.opn n k :: ts)))) = joinToks (.opn n k :: ts) :=
+  format_normalize fx n k ts h
+
+/-- The two halves: what the formatter prints, and what the normaliser makes of it. -/
+theorem format_tokens_spec (fx : Fixes) (toks : List Tok) (h : Bal toks 0 false) :
+    formatSexp fx (joinToks toks) = prettyToks toks 0 false := format_tokens fx toks h
+
+/-- Non-vacuity: `(s (a t: (i) v: (n)))` is in the class (decided by the kernel), so the theorem applies. -/
+example : inFormatClass ['(', 's', ' ', '(', 'a', ' ', 't', ':', ' ', '(', 'i', ')', ' ', 'v', ':', ' ', '(', 'n', ')', ')', ')'] = true := by
+  decide +kernel
+
 /-
-OPEN: theorem format_normalize (t : a tree printed by `ts_node_string`) :
-    normalizeSexp (trim (formatSexp fx (render t))) = render t
+Dropped hypothesis "no quoted token": `format_sexp_quote_state` below (FALSE for the unchanged code).
 OPEN: theorem update_idempotent : updateFile fx os orc (updateFile fx os orc f) = updateFile fx os orc f
-Both are decided by the judge on every real case (clauses `format-normalize`, `idempotent`).
+OPEN: theorem update_passes — both follow from `format_normalize` + the round trip including outputs
+(not proved); they are decided by the judge on every real case (clauses `passes`, `idempotent`).
 -/
 
 def sxTwoQuoted : Str :=   -- "(p (UNEXPECTED '?') (UNEXPECTED '?') (i))"
@@ -313,5 +496,13 @@ theorem update_drops_other_platform :
 /-- Witness (genuine defect): a test with two `:language(..)` lines is written twice. -/
 theorem update_duplicates_per_language :
     (updateEntries {} okOracle [eTwoLang] []).map (·.map (·.name)) = some [eTwoLang.name, eTwoLang.name] := by decide
+
+/-- Non-vacuity of `update_passes_partial` on a concrete file (`===\nt\n===\na\n---\n\n(x)\n`, the parser
+answering `(source)`): the file has one run-once test, the update writes it, and it reads back with the
+actual rendering as expectation. -/
+def fEx : Str := ['=', '=', '=', '\n', 't', '\n', '=', '=', '=', '\n', 'a', '\n', '-', '-', '-', '\n', '\n', '(', 'x', ')', '\n']
+example : (parseFile [] fEx).map (·.output) = [['(', 'x', ')']] ∧
+    (parseFile [] (updateFile {} [] okOracle fEx)).map (·.output) = [sxSource] ∧
+    inFormatClass sxSource = true := by decide +kernel
 
 end TsVerif.C20
